@@ -398,17 +398,24 @@ class PathEnv:
 
     def update(self, st2: ast.stmt) -> None:
         """``st2``: the statement after substitution."""
-        for name in list(self.env):
-            if _clobbers([st2], self.env[name]):
-                self.env.pop(name)
         tgt = val = None
         if isinstance(st2, ast.Assign) and len(st2.targets) == 1 and isinstance(st2.targets[0], ast.Name):
             tgt, val = st2.targets[0].id, st2.value
         elif isinstance(st2, ast.AnnAssign) and isinstance(st2.target, ast.Name) and st2.value is not None:
             tgt, val = st2.target.id, st2.value
+        will_record = tgt is not None and self._ok_value(val) and not (_is_container_ctor(val) and _is_empty_container(val))
+        # (a resolved rebinding of tgt does not disturb entries that read the earlier tgt: only the evaluation of its value can)
+        probe: ast.stmt = ast.copy_location(ast.Expr(value=val), st2) if will_record else st2
+        for name in list(self.env):
+            if _clobbers([probe], self.env[name]):
+                self.env.pop(name)
         for n in ast.walk(st2):
             if isinstance(n, ast.Name) and isinstance(n.ctx, (ast.Store, ast.Del)):
                 self.env.pop(n.id, None)
+                if will_record and n.id == tgt:
+                    # the new value of tgt is itself resolved, so tgt never occurs in later resolved text under its own name: entries that
+                    # mention tgt keep denoting its earlier (opaque) value
+                    continue
                 for k in [k for k, v in self.env.items() if any(isinstance(x, ast.Name) and x.id == n.id for x in ast.walk(v))]:
                     self.env.pop(k)
         if tgt is not None and self._ok_value(val) and not (_is_container_ctor(val) and _is_empty_container(val)):
@@ -877,9 +884,16 @@ class HelperInliner:
                     head0 = st.value.value if isinstance(st.value, (ast.YieldFrom, ast.Yield, ast.Await)) and st.value.value is not None else st.value
                     spine = _leading_calls(head0)
                     # the first argument of a call through a plain (dotted) name is evaluated before anything else of the statement
-                    if isinstance(head0, ast.Call) and dotted(head0.func) is not None and head0.args and isinstance(head0.args[0], ast.Call) \
-                            and not isinstance(head0.args[0], ast.Starred):
-                        spine = _leading_calls(head0.args[0]) + spine
+                    if isinstance(head0, ast.Call) and dotted(head0.func) is not None and head0.args:
+                        # (likewise a later argument when everything evaluated before it is pure)
+                        for a_k in head0.args:
+                            if isinstance(a_k, ast.Starred):
+                                break
+                            if isinstance(a_k, ast.Call):
+                                spine = _leading_calls(a_k) + spine
+                                break
+                            if not is_pure_expr(a_k):
+                                break
                     for lc0 in spine:
                         if lc0 is st.value:
                             continue
